@@ -23,9 +23,12 @@ Transcribed source (pinned tree):
       ltpk.verify(signature, info); InvalidSignature    -> AuthenticationError
       sign(own_pub + client_id + session_pub) with ltsk, write_tlv, encrypt nonce "PV-Msg03"
 * pyatv/auth/hap_srp.py:126-136   `SRPAuthHandler.verify2` (two hkdf_expand over the shared secret)
-* pyatv/protocols/mrp/auth.py:19-23, 94-116        `_get_pairing_data`, `MrpPairVerifyProcedure.verify_credentials`
-* pyatv/protocols/companion/auth.py:22-37, 132-164 `_get_pairing_data`, `CompanionPairVerifyProcedure.verify_credentials`
-* pyatv/protocols/airplay/auth/hap.py:28-32, 111-138 `_get_pairing_data`, `AirPlayHapPairVerifyProcedure.verify_credentials`
+* pyatv/protocols/mrp/auth.py:19-23, 94-119        `_get_pairing_data`, `MrpPairVerifyProcedure.verify_credentials`
+* pyatv/protocols/companion/auth.py:22-37, 132-167 `_get_pairing_data`, `CompanionPairVerifyProcedure.verify_credentials`
+* pyatv/protocols/airplay/auth/hap.py:28-35, 119-146 `_get_pairing_data`, `AirPlayHapPairVerifyProcedure.verify_credentials`
+  (repaired tree: AirPlay's `_get_pairing_data` rejects a TLV carrying an Error item; MRP and
+   Companion `verify_credentials` read the M4 reply: `_get_pairing_data(resp)` and
+   `pairing_data.get(SeqNo) != b"\x04"` -> AuthenticationError; AirPlay still ignores M4's body)
 * pyatv/support/__init__.py:68-77   `error_handler` (`errorHandler`)
 * pyatv/protocols/mrp/protocol.py:159 + 209-224        `start` / `_enable_encryption`
 * pyatv/protocols/companion/protocol.py:107 + 114-123  `start` / `_setup_encryption`
@@ -102,6 +105,7 @@ structure Client where
 
 inductive AuthMsg
   | incorrectDeviceResponse | signatureError | deviceError | noPairingData | notAuthenticated
+  | unexpectedVerifyResponse
   deriving DecidableEq, Repr
 
 /-- exceptions as raised inside `verify_credentials` (before any mapping) -/
@@ -219,11 +223,17 @@ inductive Pd
   | notBytes
   deriving DecidableEq, Repr
 
+/-- what the exchange of M3 does: it raises, or it returns the accessory's M4 envelope -/
+inductive M4
+  | raises (e : RawErr)
+  | reply (pd : Pd)
+  deriving DecidableEq, Repr
+
 structure Reply where
   /-- M2 -/
   pd : Pd
-  /-- what the exchange of M3 raises (`none`: it returns; its content is ignored by the code) -/
-  m4 : Option RawErr
+  /-- M4 (MRP, Companion: parsed and checked; AirPlay: the body is ignored) -/
+  m4 : M4
 
 /-- the three `_get_pairing_data` helpers -/
 def getPairingData : Transport → Pd → Except RawErr Tlv
@@ -244,7 +254,19 @@ def getPairingData : Transport → Pd → Except RawErr Tlv
       let b := match pd with | .bytes b => b | _ => []
       match readTlv b with
       | none => .error .indexError
-      | some tlv => .ok tlv
+      | some tlv => if (tlv.lookup tagError).isSome then .error (.auth .deviceError) else .ok tlv
+
+/-- the check of the M4 reply at the end of `verify_credentials`:
+    MRP / Companion: `_get_pairing_data(resp)` then `pairing_data.get(SeqNo) != b"\x04"`;
+    AirPlay: nothing (the reply to M3 is not looked at). -/
+def checkM4 : Transport → Pd → Except RawErr Unit
+  | .airplay, _ => .ok ()
+  | t, pd =>
+      match getPairingData t pd with
+      | .error e => .error e
+      | .ok tlv =>
+          if tlv.lookup tagSeqNo = some [4] then .ok ()
+          else .error (.auth .unexpectedVerifyResponse)
 
 /-- `XxxPairVerifyProcedure.verify_credentials`: result = the shared secret (`srp._shared`) -/
 def verifyCredentials (C : Crypto) (t : Transport) (cr : Creds) (cl : Client) (r : Reply) :
@@ -262,8 +284,11 @@ def verifyCredentials (C : Crypto) (t : Transport) (cr : Creds) (cl : Client) (r
         | (tr, .error e) => (tr, .error e)
         | (tr, .ok (shared, m3)) =>
           match r.m4 with
-          | some e => (tr ++ [.sendM3 m3], .error e)
-          | none => (tr ++ [.sendM3 m3], .ok shared)
+          | .raises e => (tr ++ [.sendM3 m3], .error e)
+          | .reply pd4 =>
+            match checkM4 t pd4 with
+            | .error e => (tr ++ [.sendM3 m3], .error e)
+            | .ok () => (tr ++ [.sendM3 m3], .ok shared)
 
 /-- (salt, output info, input info) handed to `encryption_keys` -/
 def kdfParams : Transport → Bytes × Bytes × Bytes
